@@ -18,6 +18,9 @@ type World struct {
 	R  *Replica
 	N  Nonces
 	TS int64
+	// EthCtr makes every Ethereum-format transaction of a world unique (it goes into gas price and value): the
+	// counter survives a change of generator, nonces do not (a rejected transaction does not consume one)
+	EthCtr int64
 	// Votes is the number of genesis admins that vote in the fixture's governance flows (a simple majority).
 	Votes int
 	// Rec, if set, is told every block fed through Exec (for replay on other replicas).
